@@ -58,7 +58,7 @@ impl Property for C14 {
         }
     }
     fn rule(&self) -> &'static str {
-        "each case: a generated valid instance with 1-7 constraints spread over the active and removed lists (metadata, threshold-valued constraints; half of them with one-hot / SOS1 constraint hints naming active constraints) and a history of up to 8 (quick) / 24 (thorough) operations drawn from relax(id, reason, parameters) / restore(id) with ids from the active list, the removed list and unknown ids, interleaved with evaluate at one fixed in-bound state and evaluate_samples over three fixed states under four sample ids (per-sample flags equal those of evaluate and stay constant); relax reasons include the empty string. After every operation the instance is compared with an executable two-map model: same (id, function, equality, metadata) collection, each id in exactly one list, reason/parameters recorded, failing operations leave the instance equal; across the history the per-constraint values and `feasible` are constant and `feasible_relaxed` equals the conjunction over the model's active set. Non-trivial = history with >= 2 successful moves; distinct = fingerprint of (instance, history)."
+        "each case: a generated valid instance (one in six first passed through a random pipeline of SDK transformations) with 1-7 constraints spread over the active and removed lists (metadata, threshold-valued constraints; half of them with one-hot / SOS1 constraint hints naming active constraints) and a history of up to 8 (quick) / 24 (thorough) operations drawn from relax(id, reason, parameters) / restore(id) with ids from the active list, the removed list and unknown ids, interleaved with evaluate at one fixed in-bound state and evaluate_samples over three fixed states under four sample ids (per-sample flags equal those of evaluate and stay constant); relax reasons include the empty string. After every operation the instance is compared with an executable two-map model: same (id, function, equality, metadata) collection, each id in exactly one list, reason/parameters recorded, failing operations leave the instance equal; across the history the per-constraint values and `feasible` are constant and `feasible_relaxed` equals the conjunction over the model's active set. Non-trivial = history with >= 2 successful moves; distinct = fingerprint of (instance, history)."
     }
     fn assumptions(&self) -> Vec<&'static str> {
         vec!["the order of constraints inside a list is not part of the property and is not compared", "feasibility is judged from the values the Solution itself reports (the values are checked by C05)"]
@@ -73,6 +73,14 @@ impl Property for C14 {
         let g = gen_instance(rng, &cfg);
         let mut inst = g.instance;
         add_threshold_constraints(rng, &mut inst, &g.pool);
+        // one case in six: an instance out of a pipeline of the SDK's own transformations
+        if rng.chance(1, 6) {
+            let (i2, steps) = pipeline_instance(rng, inst);
+            inst = i2;
+            if !steps.is_empty() {
+                mon.facet("instance-out-of-an-SDK-pipeline");
+            }
+        }
         // half of the instances carry constraint hints (one-hot / SOS1) that name active constraints
         if rng.bool() {
             inst.constraint_hints = gen_hints(rng, &inst);
@@ -83,9 +91,12 @@ impl Property for C14 {
         if inst.constraints.is_empty() && inst.removed_constraints.is_empty() {
             mon.facet("no-constraints");
         }
-        let st = gen_state_in_bounds(rng, &inst, None, regime);
-        let st2 = gen_state_in_bounds(rng, &inst, None, regime);
-        let st3 = gen_state_in_bounds(rng, &inst, None, regime);
+        // states give every variable except fixed and dependent ones
+        let hidden = fixed_or_dependent(&inst);
+        let give: std::collections::BTreeSet<u64> = inst.decision_variables.iter().map(|v| v.id).filter(|i| !hidden.contains(i)).collect();
+        let st = gen_state_in_bounds(rng, &inst, Some(&give), regime);
+        let st2 = gen_state_in_bounds(rng, &inst, Some(&give), regime);
+        let st3 = gen_state_in_bounds(rng, &inst, Some(&give), regime);
         let mut base_sample_flags: Option<BTreeMap<u64, bool>> = None;
         let max_len = match env.tier {
             Tier::Quick => 8,
